@@ -227,7 +227,7 @@ def parse_bam(path, names, bxs, contents, rg_sample, ignore_rg=False):
             recs.append(dict(tid=a.reference_id, id=contents(key), name=names((skey, a.query_name)), start=a.reference_start,
                              end=endpos(a), unmapped=a.is_unmapped, secondary=a.is_secondary, suppl=a.is_supplementary, bx=bx,
                              tags=(tagval(tags, "HP"), tagval(tags, "PS"), tagval(tags, "PC")),
-                             sample=rg_sample.get(rg), qname=a.query_name))
+                             sample=rg_sample.get(rg), qname=a.query_name, flag=a.flag, rg=rg))
     return recs
 
 
@@ -412,7 +412,14 @@ def expected_tags(case, res):
     names_by_sample = {}
     for a in case["alns"]:
         names_by_sample.setdefault(a["name"], set()).add(a["sample"])
-    by_key = {(r["qname"], r["start"], r["tid"]): r for r in res["inp"] if not r["secondary"] and not r["suppl"] and not r["unmapped"]}
+    # the input record of a generated alignment: name, position, flag AND read group (names may be shared between samples);
+    # ambiguous keys (identical twins) get no expectation
+    by_key, twins = {}, set()
+    for r in res["inp"]:
+        k = (r["qname"], r["start"], r["tid"], r["flag"], r["rg"])
+        if k in by_key:
+            twins.add(k)
+        by_key[k] = r
     regs = parsed_regions(case, res)
     out = []
     res["_expect_bridge"] = 0
@@ -456,8 +463,9 @@ def expected_tags(case, res):
             continue                                  # (swapped tables are not used here) sanity: truth equals the table
         if not all(any(table[pos][1][h2] != table[pos][1][h] for pos in sure) for h2 in range(pl) if h2 != h):
             continue
-        r = by_key.get((a["name"], st, tid))
-        if r is None:
+        k = (a["name"], st, tid, a["flag"], a.get("rg"))
+        r = by_key.get(k)
+        if r is None or k in twins:
             continue
         out.append((r["id"], h + 1, ps))
         if regs is not None and sum(1 for k, s_, e_ in regs if k == tid) >= 2 and any(k == tid and e_ is not None and abs(e_ - st) <= 1 for k, s_, e_ in regs):
